@@ -3,6 +3,8 @@ package harness
 import (
 	"errors"
 	"io"
+
+	"github.com/crate-crypto/go-ipa/verifsim"
 )
 
 // iosim: the simulated reader/writer behind the io.Reader/io.Writer seam.
@@ -21,6 +23,7 @@ type ReaderSpec struct {
 	ChunkSeed uint64     `json:"chunk_seed,omitempty"`
 	EOFWithData bool     `json:"eof_with_last_data,omitempty"`
 	Fault     *ReadFault `json:"fault,omitempty"`
+	YieldOnRead bool     `json:"yield_on_read,omitempty"` // every Read call is a scheduling point (a slow stream): other tasks may run while a decoder is mid-record
 }
 
 type SimReader struct {
@@ -41,8 +44,13 @@ func NewSimReader(data []byte, spec ReaderSpec) *SimReader {
 func (r *SimReader) Pos() int       { return r.pos }
 func (r *SimReader) FaultFired() bool { return r.fired }
 
+var siteSimReader = verifsim.HarnessSite("harness:SimReader.Read (stream delay)")
+
 func (r *SimReader) Read(p []byte) (int, error) {
 	r.Calls++
+	if r.spec.YieldOnRead {
+		verifsim.Yield(siteSimReader)
+	}
 	if len(p) == 0 {
 		return 0, nil
 	}
